@@ -36,6 +36,12 @@
 (*        handed to a later message without any policy check              *)
 (*        (DESIGN section 6 row 10).  The design returns only connections *)
 (*        that were vetted by the configured policies.                    *)
+(*   "ReqTLSCleared"  with relaxed_requiretls connectionForDomain clears    *)
+(*        msgMeta.SMTPOpts.RequireTLS - for the whole delivery - when an   *)
+(*        MX lacks the REQUIRETLS extension: recipients in further domains *)
+(*        of the same message are handled as if REQUIRETLS had never been  *)
+(*        asked for (no level checks, cache not bypassed).  The design     *)
+(*        drops the parameter only from that connection's MAIL command.    *)
 (*   "TlsaFutureShared"  daneDelivery.PrepareConn starts the TLSA lookup  *)
 (*        in a goroutine that stores its result in whatever future the    *)
 (*        delivery object holds WHEN THE LOOKUP FINISHES (the field is    *)
@@ -62,6 +68,8 @@ CONSTANTS PolSets,      \* sets of enabled policies explored
           WithDNSFail,  \* TRUE: also explore a failing MX lookup
           SlowSet,      \* values of the "TLSA lookup answers late" fact (non-last MX, dane enabled)
           CnSet,        \* CNAME situations of an MX name explored (dane enabled), see RemoteObs
+          QuitSet,      \* how an MX answers QUIT: "bye" (221, closes), "busy" (421, keeps the connection open),
+                        \* "silent" (no reply), "drop" (closes without a reply); the design closes its side anyway
           Devs, Gen
 
 (* ---- named values for the constants (configuration files cannot spell records) ---- *)
@@ -94,7 +102,10 @@ KindsNA == {[MK(FALSE, n, FALSE) EXCEPT !.na = TRUE] : n \in BOOLEAN}
 KindsX == Kinds4 \cup KindsMail \cup KindsLateQ \cup KindsNA
 KindsFocus == Kinds3 \cup KindsMail
 KindsQ == Kinds1 \cup KindsLateQ \cup KindsNA
-KindsAll == KindsX \cup Kinds5
+KindsPre == {[MK(TRUE, FALSE, FALSE) EXCEPT !.pre = TRUE]}
+KindsPreFocus == Kinds1 \cup KindsPre \cup {MK(TRUE, FALSE, FALSE)}
+StsDnssecSets == {{"mtasts"}, {"dnssec"}, {"mtasts", "local"}, {"dnssec", "local"}, {"mtasts", "dane"}}
+KindsAll == KindsX \cup Kinds5 \cup KindsPre
 
 VARIABLES cfg, k, cur, pc, mxi, att, lvl, conn, pool, lastErr,
           pend,   \* TLSA outcome of an earlier MX whose lookup is still unanswered ("no" = none)
@@ -113,8 +124,9 @@ NoConn == [mx |-> 0, tls |-> "none", mxl |-> 0, tll |-> 0, taint |-> {}]
 
 (* ---- the configuration space, built without irrelevant combinations ---- *)
 MXFacts(P, s, sl) ==
-  UNION { { [stls |-> x.stls, cert |-> x.cert, stsMatch |-> mt, tlsa |-> t, slow |-> w, cn |-> c, tlsaC |-> tc] :
-              x \in StlsCert,
+  UNION { { [stls |-> x.stls, cert |-> x.cert, stsMatch |-> mt, tlsa |-> t, slow |-> w, cn |-> c, tlsaC |-> tc,
+               quit |-> qt] :
+              x \in StlsCert, qt \in QuitSet,
               mt \in (IF "mtasts" \in P /\ s # "none" THEN BOOLEAN ELSE {FALSE}),
               t \in (IF "dane" \in P /\ c # "insec" THEN TlsaSet ELSE {"insecure"}),
               tc \in (IF c \in {"sec", "half"} THEN TlsaSet ELSE {"insecure"}),
@@ -125,7 +137,7 @@ MXSeqs(P, s, n) ==
   IF n = 1 THEN {<<f>> : f \in MXFacts(P, s, {FALSE})}
   ELSE {<<f, g>> : f \in MXFacts(P, s, SlowSet), g \in MXFacts(P, s, {FALSE})}
 DefaultMX == [stls |-> "offered", cert |-> "valid", stsMatch |-> FALSE, tlsa |-> "insecure", slow |-> FALSE,
-              cn |-> "no", tlsaC |-> "insecure"]
+              cn |-> "no", tlsaC |-> "insecure", quit |-> "bye"]
 MkCfg(P, a, b, ov, s, ad, d, ms) ==
   [pols |-> P, minTLS |-> a, minMX |-> b, override |-> ov, sts |-> s, adMX |-> ad, dns |-> d, mx |-> ms]
 
@@ -195,9 +207,20 @@ CheckConnRes(i, t, ta) ==
 EndMsg == k' = k + 1 /\ cur' = NoMsg /\ pc' = "idle" /\ conn' = NoConn /\ pend' = "no" /\ tl' = "insecure"
 
 (* ------------------------------ actions --------------------------------- *)
+(* the other domain of a "pre" message is delivered first; its MX is authenticated by *)
+(* whatever MX-authenticating policy is in force, so its REQUIRETLS checks pass       *)
+PreludeOK(m) ==
+  LET Q == InForce(cfg, m) IN
+  /\ ("mtasts" \in Q \/ "dnssec" \in Q)
+  /\ ("local" \in Q => cfg.minMX <= (IF "dnssec" \in Q THEN 2 ELSE 1))
+
 StartMsg(m) ==
   /\ pc = "idle" /\ k < MaxMsgs
-  /\ cur' = m /\ pc' = "rcpt"
+  \* deviation ReqTLSCleared: the flag is cleared for the WHOLE delivery once one MX lacks the extension;
+  \* `cur` carries the flag the implementation goes by, obs.msg the requirement of the message
+  /\ cur' = IF "ReqTLSCleared" \in Devs /\ m.pre /\ m.reqtls /\ ~m.quar /\ PreludeOK(m)
+            THEN [m EXCEPT !.reqtls = FALSE] ELSE m
+  /\ pc' = "rcpt"
   /\ obs' = ObsMsg(obs, m)
   /\ hist' = H(m)
   /\ UNCHANGED <<cfg, k, mxi, att, lvl, conn, pool, lastErr, pend, tl, devs>>
@@ -311,7 +334,7 @@ Data(i, t) ==
   /\ pc = "body" /\ ~cur.qlate /\ i = conn.mx /\ t = conn.tls
   /\ obs' = ObsData(obs, cfg, [mx |-> i, tls |-> t, cert |-> cfg.mx[i].cert])
   /\ pc' = "bodyret"
-  /\ devs' = devs \cup conn.taint
+  /\ devs' = devs \cup conn.taint \cup (IF obs.msg.reqtls /\ ~cur.reqtls THEN {"ReqTLSCleared"} ELSE {})
   /\ UNCHANGED <<cfg, k, cur, mxi, att, lvl, conn, pool, lastErr, pend, tl, hist>>
 
 BodyRet(res) ==
